@@ -4,9 +4,10 @@ pub fn floor(&self) -> Self
     requires
         B >= 2,
         !(self.repr.significand.v() == 0 && self.repr.exponent != 0),          // finite (documented panic otherwise)
-        // machine ranges (memory limits; overflow of isize in `exponent + digits` is outside this contract)
-        -0x1000_0000_0000_0000 < self.repr.exponent,
-        ndigits(B as int, self.repr.significand.v()) < 0x1000_0000_0000_0000,
+        // machine ranges: `-exponent` fits isize (overflow of isize is outside this contract), fewer than 2^56 digits
+        // (memory limit; `digits_ub() as isize` does not wrap)
+        isize::MIN < self.repr.exponent,
+        ndigits(B as int, self.repr.significand.v()) < 0x100_0000_0000_0000,
     ensures
         // C10: "the largest integer less than or equal to self": the result has the integer value t with
         // s - B^(-e) < t * B^(-e) <= s   (round_def(Mode::Down, ..); t == s * B^e if e >= 0)
@@ -43,6 +44,7 @@ pub fn floor(&self) -> Self
         /*@ proof {
             lemma_ro_round_parts(Mode::Down, s, ipow(b, precision as nat), hv, lv, rounding);
             assert(fl_round_int(Mode::Down, b, s, e, hv + adj_int(rounding)));
+            lemma_split_exp_room(b, s, precision as nat, hv, lv, adj_int(rounding));   // room for Repr::new (resource limit, C16)
         } @*/
         let context = Context::new(self.context.precision.saturating_sub(precision));
         FBig::new(Repr::new(hi + rounding, 0), context)
